@@ -2107,13 +2107,18 @@ class SchemaValidator:
         if not attribute_path:
             return type_details
 
-        for segment in (
+        path_segments = (
             attribute_path
             if isinstance(attribute_path, list)
             else attribute_path.split(".")
-        ):
-            if "attributes" not in object_definition or not isinstance(
-                object_definition["attributes"], list
+        )
+        for segment_index, segment in enumerate(path_segments):
+            if (
+                object_definition is None
+                or "attributes" not in object_definition
+                or not isinstance(
+                    object_definition["attributes"], list
+                )
             ):
                 return None
 
@@ -2125,6 +2130,13 @@ class SchemaValidator:
                 return None
 
             attribute_definition = attributes[segment]
+
+            if (
+                attribute_definition["type"][:4] != "EDGE"
+                and segment_index < len(path_segments) - 1
+            ):
+                # the path continues beyond an attribute that has no attributes of its own
+                return None
 
             # get the next field
             if attribute_definition["type"][:4] == "EDGE":
